@@ -644,6 +644,9 @@ class Interp:
             return it.items
         if isinstance(it, str):
             return list(it)
+        h = getattr(it, "sim_iter", None)          # rule-supplied abstract values (concrete small vectors)
+        if h is not None:
+            return list(h())
         raise self.err(f"cannot iterate over {it!r}", node, fi)
 
     # ------------------------------------------------------------------ expressions
@@ -827,6 +830,8 @@ class Interp:
                 return nf.fn("floordiv", L, R)
             if isinstance(op, (ast.BitAnd, ast.BitOr, ast.BitXor, ast.LShift, ast.RShift)):
                 return nf.fn(type(op).__name__.lower(), L, R)
+        if isinstance(op, ast.MatMult) and isinstance(l, Rat) and isinstance(r, Rat):
+            return nf.bilinear("matmul", l, r)
         for o in (l, r):
             h = getattr(o, "sim_binop", None)       # rule-supplied abstract values (index-level tensors, layouts)
             if h is not None:
@@ -837,6 +842,15 @@ class Interp:
 
     def _e_Compare(self, e, env, fi):
         left = self.eval(e.left, env, fi)
+        if len(e.ops) == 1:
+            right0 = self.eval(e.comparators[0], env, fi)
+            for o in (left, right0):
+                h = getattr(o, "sim_compare", None)      # element-wise comparison of rule-supplied vectors
+                if h is not None:
+                    res = h(e.ops[0], left, right0)
+                    if res is not NotImplemented:
+                        return res
+            return bool(self.compare(e.ops[0], left, right0, e, fi))
         for op, rexpr in zip(e.ops, e.comparators):
             right = self.eval(rexpr, env, fi)
             ok = self.compare(op, left, right, e, fi)
@@ -903,6 +917,10 @@ class Interp:
                 if m is not None:
                     if m.is_property:
                         return self.call_function(m, [base], {}, node)
+                    if "staticmethod" in m.decorators:
+                        return Closure(m, None)
+                    if "classmethod" in m.decorators:
+                        return BoundMethod(m, ClassRef(base.cls))
                     return BoundMethod(m, base)
                 expr, owner = self.model.lookup_class_attr(base.cls, name)
                 if expr is not None:
@@ -1452,7 +1470,22 @@ def _x_warn(it, args, kw, node, fi):
     return None
 
 
+def _x_einsum(it, args, kw, node, fi):
+    """torch.einsum: the batched outer product `...i,...j->...ij` is col(a) * row(b); any other contraction is an opaque
+    function of (spec, operands) -- in particular one whose output drops the leading `...` (it sums over the batch)."""
+    if not args or not isinstance(args[0], str):
+        raise it.err("torch.einsum without a literal subscript string", node, fi)
+    spec = args[0].replace(" ", "")
+    ops = list(args[1:])
+    if spec == "...i,...j->...ij" and len(ops) == 2:
+        return nf.wrap_axis(Rat.lift(ops[0]), "col") * nf.wrap_axis(Rat.lift(ops[1]), "row")
+    if spec in ("...ij,...j->...i", "bij,bj->bi") and len(ops) == 2:
+        return nf.bilinear("mvp", Rat.lift(ops[0]), Rat.lift(ops[1]))
+    return nf.fn(f"einsum[{spec}]", *[o for o in ops])
+
+
 _EXTERNAL_INTRINSICS = {
+    "torch.einsum": _x_einsum,
     "math.sqrt": _x_math_sqrt,
     "math.log10": _x_math_log10,
     "math.log2": _x_math_log2,
